@@ -1,4 +1,5 @@
 import EmsModel.Core.DepthProto
+import EmsModel.Lemmas.DepthHyp
 /-! Line-protocol driver for C13 (depth normalisation) and depth-coordinate discovery.
 `norm <DS> <coords|-> <opt>[,<opt>…]`  → `OK <DS'> W=<warnings of pass 1>/<pass 2>…` | `ERR`
       opt = two letters of N/T/F: positive_down, deep_to_shallow; the passes are applied in
@@ -6,6 +7,9 @@ import EmsModel.Core.DepthProto
 `disc generic <grid dims: a+b,c+d | -> <metas>` → names in order | `-`
 `disc named <names> <metas>`                    → names in order | `-`
 `small <name=size,…>`                           → name | `ERR`     (Convention.depth_coordinate)
+`coordfor <name:d1+d2,…|-> <dims a+b|->`        → name | `ERR`     (get_depth_coordinate_for_data_array)
+`hyp <DS> <coords|->` → `1` iff the hypotheses of the theorems (`Ems.Depth.Valid`, decided by `validB`,
+      sound by `validB_sound`) hold for this input
 `propcheck <DS> <coords> <opt>` → `s<0|1> i<0|1>`: the call succeeds; a second application with
       the same options returns the same dataset (decidable conclusions used by the failing-input search) -/
 open Ems Ems.Proto Ems.Depth Ems.Depth.Proto
@@ -42,6 +46,20 @@ def step (line : String) : String :=
     | some l => match smallestFirst l with
       | some n => n
       | none => "ERR"
+    | none => "BAD"
+  | ["coordfor", cs, dims] =>
+    let parsed := if cs == "-" then some [] else Ems.Proto.allSome ((cs.splitOn ",").map fun c =>
+      match c.splitOn ":" with
+      | [n, d] => some (n, if d == "-" then [] else d.splitOn "+")
+      | _ => none)
+    match parsed with
+    | some l => match depthCoordFor l (if dims == "-" then [] else dims.splitOn "+") with
+      | some n => n
+      | none => "ERR"
+    | none => "BAD"
+  | ["hyp", dss, coords] =>
+    match parseDataset? dss with
+    | some ds => if validB ds (parseNames coords) then "1" else "0"
     | none => "BAD"
   | ["propcheck", dss, coords, opt] =>
     match parseDataset? dss, parseOpt? opt with
